@@ -435,6 +435,10 @@ def rule_operator_tables(F, R, which=('binop', 'countop', 'fixpoint')):
                         if ev[0] == 'la': last = ev[1]
                         elif ev[0] == 'nt' and ev[1] == PARSER + 'parse_binary_operator':
                             if last is not None: la |= set(last)
+                            else:
+                                # no test of its own: the operator parser is tried and its refusal looked at - the tokens it succeeds on
+                                ft_ = engine_a.first_tokens(lib, K_, PARSER + 'parse_binary_operator')
+                                if ft_ is not None: la |= set(ft_)
                             break
                         elif ev[0] in ('tok', 'anytok', 'nt', 'loop'): last = None
             except engine_a.Undec as u:
@@ -511,6 +515,10 @@ def rule_number_text(F, R):
         n += 1
         term = fl.ev(e['fields'][0]['expr'], env)
         inner = term
+        matched = False
+        if inner[0] == 'payload' and isinstance(inner[1], tuple) and inner[1][0] == 'call':
+            # `match digits.parse::<usize>() { Ok(n) => push(Countable(n)), Err(e) => return Err(..) }`: the success value of the conversion
+            inner = inner[1]; matched = True
         while inner[0] == 'call' and inner[1] in ('std::result::Result::map_err',) and inner[2]: inner = inner[2][0]
         ok = inner[0] == 'call' and inner[1] == 'core::str::<impl str>::parse' and len(inner[2]) == 1 and group_text(inner[2][0]) == 'text'
         why = 'the value of the number token is %s, not the parsed text of the number' % flow.show(term)[:160]
@@ -521,6 +529,15 @@ def rule_number_text(F, R):
             for m in walk(t['body']):
                 if m['k'] == 'Match' and 'TryDesugar' in str(m.get('source')):
                     for x in walk(m['scrutinee']): tried.add(id(x))
+                elif m['k'] == 'Match' and matched:
+                    # the written-out form: the Err arm leaves tokenize with an error
+                    def err_arm_returns(a_):
+                        q_ = a_['pat']
+                        while q_['k'] in ('Deref', 'DerefPattern'): q_ = q_['sub']
+                        if not (q_['k'] == 'Variant' and q_['variant'] == 'Err' and canon(q_['adt']) == 'std::result::Result'): return False
+                        return any(y['k'] == 'Return' and y.get('value') is not None and any(z['k'] == 'Adt' and z.get('variant') == 'Err' for z in walk(y['value'])) for y in walk(a_['body']))
+                    if any(err_arm_returns(a_) for a_ in m['arms']):
+                        for x in walk(m['scrutinee']): tried.add(id(x))
             ok = bool(parses) and all(id(x) in tried for x in parses)
             why = 'the conversion of the number text can fail (digits beyond usize, digits that are not ASCII): the failure must leave tokenize as an error (`?`)'
         R.count('T:number-conversion'); R.obligation(ok, 'T number text')
